@@ -5,7 +5,7 @@ PROP = dict(
     suites=[{"bin": "c03", "name": "cands", "n": {"quick": 40, "thorough": 2500}, "timeout": 3000}],
     rule="ledger states reached by random accepted traffic (transfers, contract calls, momentums with node-generated contract receives) on a real in-process node; at each of 3-5 states per history: valid candidate blocks of every type "
          "(user send, user call, user receive, contract receive re-verified at its own unconfirmed position, a contract send stand-alone, a genesis-type block) and 10 mutations each over 21 fields "
-         "(Version, ChainIdentifier, BlockType, Hash, PreviousHash, Height, MomentumAcknowledged, Address, ToAddress, Amount incl. nil, TokenStandard, FromBlockHash, DescendantBlocks, Data, FusedPlasma, Difficulty, Nonce, ChangesHash, PublicKey, Signature, sibling swaps) "
+         "(all 22 fields of nom.AccountBlock: Version, ChainIdentifier, BlockType, Hash, PreviousHash, Height, MomentumAcknowledged, Address, ToAddress, Amount incl. nil, TokenStandard, FromBlockHash, DescendantBlocks add/drop/content-under-old-hash/order, Data, FusedPlasma, Difficulty, Nonce, BasePlasma, TotalPlasma, ChangesHash, PublicKey, Signature, signed-by-another-key, sibling swaps; hit counts per field: input_distribution c03:mutated-field:*, and c03:single-field:<field>:{rejected,accepted-and-valid} for single-field corruptions) "
          "x {zero, +-1, max, other valid value, swap}, one third double mutations, half of them re-hashed and re-signed; verdict of vm.Supervisor.ApplyBlock mapped to the error class by sentinel identity; a case is distinct by (ctx, block)",
     explanation="Theorems: accept ctx b = true -> Valid ctx b for ALL node states (ctx) and ALL blocks, where Valid spells the property: hash = hash of the content; user block signed by the key that owns the account / contract block without key and equal (hash and changes-hash) to the regenerated one; "
                 "height one above the stated predecessor which is the frontier of the store it is applied on; MomentumAcknowledged on the node's chain, for a user block not older than the predecessor's, for a contract receive exactly the send's confirmation height; "
